@@ -12,6 +12,7 @@ package main
 // The guards of a block are the literals common to all its alternatives, the rest is reported as one OR{…} term.
 
 import (
+	"os"
 	"fmt"
 	"go/token"
 	"sort"
@@ -447,6 +448,19 @@ func pathConds(fn *ssa.Function) *pcInfo {
 		}
 		if !changed {
 			break
+		}
+	}
+	if dbg := os.Getenv("FPCHECK_DEBUG_PC"); dbg != "" && strings.Contains(fn.String(), dbg) {
+		for _, b := range fn.Blocks {
+			fmt.Fprintf(os.Stderr, "PC %s b%d: %d alts\n", fn.Name(), b.Index, len(pi.in[b]))
+			for _, a := range pi.in[b] {
+				fmt.Fprintf(os.Stderr, "    %v\n", a)
+			}
+		}
+		for k, c := range pi.conds {
+			if c != nil {
+				fmt.Fprintf(os.Stderr, "  cond %d flag=%v: %s\n", k, pi.isFlag[k], c.String())
+			}
 		}
 	}
 	return pi
